@@ -28,7 +28,7 @@ def describe(tier):
         'bounds': '%d keys x 3 values BFS fixpoint; DFS depth %d' % (nk, 4 if tier == 'quick' else 5),
         'assumptions': ['only dbm.dumb exists in this image: DBMDict cannot be reopened (its own existence check refuses), which is the part the property excludes',
                         'equal canon => equal futures: the classes keep no state besides the mapping and the closed marker (guarded by the undeduplicated DFS)'],
-        'must_be_nonzero': ['bfs-configs', 'dfs-histories', 'after-close', 'reopen', 'refused-values', 'from_dict'],
+        'must_be_nonzero': ['bfs-configs', 'dfs-histories', 'after-close', 'reopen', 'refused-values', 'from_dict', 'scale-histories'],
     }
 
 
@@ -39,6 +39,7 @@ def units(tier, seed):
         us.append(('bfs/%s' % cls, {'kind': 'bfs', 'cls': cls, 'nk': nk if cls == 'PickledDict' else 3}))
         us.append(('dfs/%s' % cls, {'kind': 'dfs', 'cls': cls}))
         us.append(('fromdict/%s' % cls, {'kind': 'fromdict', 'cls': cls}))
+        us.append(('scale/%s' % cls, {'kind': 'scale', 'cls': cls}))
     return us
 
 
@@ -338,9 +339,101 @@ def run_fromdict(r, seed, clsname):
     shutil.rmtree(home, ignore_errors=True)
 
 
+def run_scale(r, seed, clsname):
+    """values of several KiB, hundreds of keys, several close/open cycles: one scripted history with a complete comparison against
+    the dict model at every checkpoint (the exhaustive units above use 3-4 keys and values of a few bytes)"""
+    import data_persistence.persistent_dict as pd
+    cls = getattr(pd, clsname)
+    pickled = clsname == 'PickledDict'
+    home = det.workdir('c20scale')
+    g = det.rng(seed, 'c20-scale', clsname)
+    path = os.path.join(home, 'd')
+    model = {}
+    d = cls.create(path)
+    step = [0]
+
+    def check(label):
+        step[0] += 1
+        r['evaluations'] += 1
+        r['states'] += 1
+        r['transitions'] += len(model) + 3
+        r['nontrivial'] += 1
+        case = {'cls': clsname, 'scale_checkpoint': label}
+        core.note_case(case)
+        try:
+            keys = list(d)
+            want = list(model)
+            if (keys != want) if pickled else (sorted(keys) != sorted(want)):
+                r.v(PROPERTY, clsname, 'scale-contents-differ', label + '/keys', case, '%d keys as in the model' % len(want), '%d keys' % len(keys))
+                return
+            if len(d) != len(model):
+                r.v(PROPERTY, clsname, 'scale-contents-differ', label + '/len', case, len(model), len(d))
+            bad = [k for k in model if bytes(d[k]) != model[k]]
+            if bad:
+                r.v(PROPERTY, clsname, 'scale-contents-differ', label + '/values', case, 'values as in the model', '%d differ, e.g. key %r: %d bytes instead of %d' % (len(bad), bad[0], len(d[bad[0]]), len(model[bad[0]])))
+            if b'absent-key' in d or d.get(b'absent-key', b'dflt') != b'dflt':
+                r.v(PROPERTY, clsname, 'scale-contents-differ', label + '/absent', case, 'absent', 'present')
+        except Exception as e:
+            r.v(PROPERTY, clsname, 'scale-raises', label + ':' + type(e).__name__, case, 'observations as the model', core.exc_text(e))
+
+    def reopen(label):
+        nonlocal d
+        if not pickled:
+            d.sync()                  # DBMDict: one open session is what the property covers; sync is its durability point
+            check(label + '/after-sync')
+            return
+        d.close()
+        d = cls.open(path)
+        r.count('scale-reopens')
+        check(label + '/after-reopen')
+    try:
+        for i in range(40):
+            k, v = b'k%03d' % i, g.randbytes(4096)
+            d[k] = v; model[k] = v
+        check('40x4KiB')
+        reopen('40x4KiB')
+        big = g.randbytes(100 * 1024)
+        d[b'big'] = big; model[b'big'] = big
+        for i in range(300):
+            k, v = b't%03d' % i, b'%d' % i
+            d[k] = v; model[k] = v
+        check('100KiB+300')
+        for i in range(0, 300, 3):
+            del d[b't%03d' % i]; del model[b't%03d' % i]
+        check('deleted-every-third')
+        reopen('deleted-every-third')
+        for cyc in range(4):
+            for i in range(10):
+                k, v = b'c%d-%d' % (cyc, i), g.randbytes(700 + 100 * cyc)
+                d[k] = v; model[k] = v
+            for i in range(5):
+                k = b'k%03d' % (cyc * 5 + i)
+                del d[k]; del model[k]
+            d[b'big'] = model[b'big'] = g.randbytes(70 * 1024 + cyc)
+            check('cycle-%d' % cyc)
+            reopen('cycle-%d' % cyc)
+        d.clear(); model.clear()
+        check('cleared')
+        reopen('cleared')
+        d.close()
+        r.count('scale-histories')
+        r.outcome('scale-ok/' + clsname)
+    except Exception as e:
+        r.v(PROPERTY, clsname, 'scale-raises', 'history:' + type(e).__name__, {'cls': clsname, 'scale_checkpoint': 'step %d' % step[0]}, 'history completes', core.exc_text(e))
+        try:
+            d.close()
+        except Exception:
+            pass
+    r.sample({'cls': clsname, 'scale_history': '40 values of 4 KiB, one of 100 KiB, 300 small keys, deletions, 6 close/open (PickledDict) or sync (DBMDict) points'}, limit=1)
+    shutil.rmtree(home, ignore_errors=True)
+
+
 def run_unit(p, tier, seed):
     r = core.Result()
     clsname = p['cls']
+    if p['kind'] == 'scale':
+        run_scale(r, seed, clsname)
+        return r
     if p['kind'] == 'fromdict':
         run_fromdict(r, seed, clsname)
         return r
@@ -389,6 +482,9 @@ def replay(case, seed):
     r = core.Result()
     if 'from_dict' in case:
         run_fromdict(r, seed, case['cls'])
+        return r['violations']
+    if 'scale_checkpoint' in case:
+        run_scale(r, seed, case['cls'])
         return r['violations']
     system = DictSystem(case['cls'], 4)
     s = system.fresh()
